@@ -37,6 +37,10 @@ ANCHORS = [
     (SOCKET_PY, "StreamReaderBufferedProtocol._read_waiter_fut"),
     (SOCKET_PY, "StreamReaderBufferedProtocol._wakeup_read_waiter"),
     (SOCKET_PY, "StreamReaderBufferedProtocol._check_for_connection_lost"),
+    (SOCKET_PY, "StreamReaderBufferedProtocol._maybe_pause_transport"),
+    (SOCKET_PY, "StreamReaderBufferedProtocol._maybe_resume_transport"),
+    (SOCKET_PY, "StreamReaderBufferedProtocol._compute_read_buffer_limits"),
+    (BLOCKING_PY, "_BufferedReceiverImpl.receive"),
     (SOCKET_PY, "AsyncioTransportStreamSocketAdapter.recv"),
     (SOCKET_PY, "AsyncioTransportStreamSocketAdapter.recv_into"),
     ("src/easynetwork/lowlevel/api_async/backend/_asyncio/tasks.py", "TaskUtils.coro_yield"),
